@@ -173,7 +173,7 @@ def ideal(prog) -> dict:
             elif not ok:
                 st[ref] = "NOT_STARTED"
 
-            elif sd["enabled"] is False:
+            elif sd["enabled"] is False or sd["enabled"] == "expired":
                 st[ref] = "SKIPPED"
             else:
                 st[ref] = stage_from_tasks(prog, sd)
@@ -198,6 +198,8 @@ def ideal(prog) -> dict:
         if sd.get("instk"):
             st[sd["ref"]] = "ABSENT"
     vals = {v for k, v in st.items() if not _stage(prog, k)["parent"] and v != "ABSENT"}
+    if prog.get("wfExpired"):      # never starts: cancelled as a whole
+        return {"wf": "CANCELED", "st": {k: ("CANCELED" if v != "ABSENT" else v) for k, v in st.items()}}
     if "TERMINAL" in vals:
         wf = "TERMINAL"
     elif "CANCELED" in vals:
